@@ -424,6 +424,19 @@ func DynExtra(yield func(u *Universe)) {
 			}
 		}
 	}
+	// E2: a loaded document in the middle of the chain declares draft-07: its $dynamicAnchor / $anchor are
+	// unknown keywords there and declare nothing, so it never captures a $dynamicRef of a 2020-12 resource
+	for kv := 0; kv < 9; kv++ {
+		k0, k2 := kv%3, kv/3
+		for _, midAnchor := range []string{`"$dynamicAnchor":"n",`, `"$anchor":"n",`, `"$id":"#n",`} {
+			for _, fin := range []string{"#n", "r2.json#n", "#/$defs/m"} {
+				mid := `{"$schema":"http://json-schema.org/draft-07/schema#","$id":"http://h/r1.json","allOf":[{"$ref":"r2.json"}],"definitions":{"m":{` + midAnchor + `"const":11}}}`
+				last := `{"$schema":"https://json-schema.org/draft/2020-12/schema","$id":"http://h/r2.json","$dynamicRef":"` + fin + `","$defs":{"m":{` + anchorKinds[k2] + `"const":12}}}`
+				root := `{"$id":"http://h/r0.json","$ref":"r1.json","$defs":{"m":{` + anchorKinds[k0] + `"const":10}}}`
+				yield(&Universe{Root: root, Base: "http://h/r0.json", Docs: map[string]string{"http://h/r1.json": mid, "http://h/r2.json": last}, Kind: "mixed-draft middle", Insts: []string{"10", "11", "12", "99"}})
+			}
+		}
+	}
 	// F: resources entered DIRECTLY through an applicator (the next resource is the applicator's
 	// subschema itself, with its own $id, not the target of a reference), after a sibling
 	// subschema of the enclosing resource has been evaluated; 2 and 3 levels, every anchor kind,
